@@ -1,10 +1,26 @@
 (* C16 -- Mixed schedules are identical with and without numba
    Property theorems only: each proof is one application of a lemma proved in Proofs/, followed by Print Assumptions. *)
 From Coq Require Import ZArith List Bool.
-From CS Require TabEq TabSim MemoCoh.
+From CS Require TabEq TabSim MemoCoh MixPaths.
 From CS Require Import Actions NAdvance Multistage Exec Sched RunFacts Projections BasicInv MultistageRun AllocTotal TLBridge MixBridge.
 Import ListNotations.
 Open Scope Z_scope.
+
+(* STREAMS: on the extracted model the whole monitored run of MixedCheckpointSchedule -- every outcome, every observation (n, r, max_n, flags, uses_storage_type) and the executor state -- is the same on the tabulated path (tab = true) and on the memoised path (tab = false), for every N, unit count, storage and number of requests *)
+Module M_C16_streams_equal.
+Import MixPaths.
+Theorem C16_streams_equal :
+  forall (N s : Z) (sg : Actions.storage) (k : nat),
+         1 <= N ->
+         0 <= s ->
+         (2 <= N -> 1 <= s) ->
+         sg = Actions.RAM \/ sg = Actions.DISK ->
+         Sched.run_case (Sched.PMixed N s sg true) (MixBridge.pmx N (Z.min s (N - 1)) sg) (repeat Sched.Next k) =
+         Sched.run_case (Sched.PMixed N s sg false) (MixBridge.pmx N (Z.min s (N - 1)) sg)
+           (repeat Sched.Next k).
+Proof. exact (@MixPaths.mixed_paths_same_stream). Qed.
+Print Assumptions C16_streams_equal.
+End M_C16_streams_equal.
 
 (* the extracted tabulated planner (list of lists, as the numpy array) succeeds and every entry is the canonical plan *)
 Module M_C16_tabulate_planC.
